@@ -106,4 +106,100 @@ Section CloneSlice.
     - intros s2 (k & Hk & G1 & G2). rewrite Hn1 in *. exists k. split; [exact Hk|]. split; [exact G1|].
       intros e He. rewrite (G2 e He). apply Hl1. intros [].
   Qed.
+  (* ------------------------------------------------------------------ a Clone that panics *)
+  (* T::clone on an element whose Clone is scripted to panic: nothing but the event log changes *)
+  Lemma clone_elem_panics s e :
+    ledger s e = Live -> mem e (clone_panics s) = true ->
+    exists s', clone_elem cfg e s = (Panicking, s') /\
+      heap s' = heap s /\ vecs s' = vecs s /\ ledger s' = ledger s /\ next_elem s' = next_elem s.
+  Proof.
+    intros Hl Hp. unfold clone_elem, tracked. rewrite Htracked. cbn [negb].
+    rewrite (bind_val _ _ _ _ _ (expose_live cfg s e (or_intror Hl))).
+    unfold bind at 1. unfold get. rewrite Hp.
+    eexists. split; [reflexivity|]. simpl. repeat split; reflexivity.
+  Qed.
+
+  Definition sources (s : state) (src : list elem) : Prop :=
+    forall e, In e src -> ledger s e = Live /\ e < next_elem s.
+
+  (* cloning a slice onto the end of a vector when ANY of the elements' Clone may panic (and the capacity
+     computation may refuse): after the unwind the vector is its old contents followed by the clones made
+     so far -- each held exactly once, live -- and no pre-existing element has been touched *)
+  Theorem push_clones_any : forall src s w l,
+    vabs s w l -> sources s src ->
+    post (push_clones cfg ncap w src s)
+      (fun _ s' =>
+         vabs s' w (l ++ zseq (next_elem s) (List.length src)) /\
+         next_elem s' = next_elem s + Z.of_nat (List.length src) /\
+         (forall e, e < next_elem s -> ledger s' e = ledger s e))
+      (fun s' => exists k, (k <= List.length src)%nat /\ vabs s' w (l ++ zseq (next_elem s) k) /\
+                           (forall e, e < next_elem s -> ledger s' e = ledger s e)).
+  Proof.
+    induction src as [|e src IH]; intros s w l Hab Hsrc.
+    - simpl. rewrite app_nil_r. split; [exact Hab|]. split; [lia|auto].
+    - destruct (vabs_owned cfg s w l Hab) as (Hnd & Hlive & Hold).
+      destruct (Hsrc e (or_introl eq_refl)) as (He1 & He2).
+      cbn [push_clones].
+      destruct (mem e (clone_panics s)) eqn:Hcp.
+      { (* this element's Clone panics: nothing has changed but the event log *)
+        destruct (clone_elem_panics s e He1 Hcp) as (s1 & Hce & Hh1 & Hv1 & Hl1 & Hn1).
+        unfold bind at 1. rewrite Hce. simpl. exists O. split; [lia|]. simpl. rewrite app_nil_r.
+        split; [|intros y _; rewrite Hl1; reflexivity].
+        eapply (vabs_ext cfg); [exact Hab|exact Hh1|exact Hv1|intros y _; rewrite Hl1; reflexivity|lia]. }
+      destruct (clone_elem_spec cfg Htracked s e He1 Hcp) as (s1 & Hce & Hh1 & Hv1 & Hi1 & Hn1 & Hcp1 & Hdp1 & Hl1 & Hp1).
+      rewrite (bind_val _ _ _ _ _ Hce).
+      set (c := next_elem s) in *.
+      assert (Hab1 : vabs s1 w l).
+      { eapply (vabs_ext cfg); [exact Hab|exact Hh1|exact Hv1| |lia].
+        intros y Hy. rewrite Hl1. unfold upd. destruct (Z.eqb_spec y c); [specialize (Hold y Hy); unfold c in *; lia|reflexivity]. }
+      assert (Hlc : ledger s1 c = Live) by (rewrite Hl1; unfold upd; rewrite Z.eqb_refl; reflexivity).
+      assert (Hnot : ~ In c l) by (intros Hin; specialize (Hold c Hin); unfold c in Hold; lia).
+      pose proof (push_abs cfg ncap Hcfg Hpol Htracked s1 w l c Hab1 Hlc Hnot ltac:(unfold c; lia)) as Hpush.
+      assert (Hold1 : forall y, y < c -> ledger s1 y = ledger s y).
+      { intros y Hy. rewrite Hl1. unfold upd. destruct (Z.eqb_spec y c); [lia|auto]. }
+      eapply post_bind.
+      { eapply post_weaken; [exact Hpush|intros u s2 H; exact H|].
+        intros s2 (Hab2 & Hd & [_ Hl2]). exists O. split; [lia|]. simpl. rewrite app_nil_r. split; [exact Hab2|].
+        intros y Hy. rewrite Hl2 by (intros [<-|[]]; lia). apply (Hold1 y Hy). }
+      intros u s2 (Hab2 & [Hn2 Hl2] & _).
+      assert (Hsrc2 : sources s2 src).
+      { intros y Hy. destruct (Hsrc y (or_intror Hy)) as (A & B). split.
+        - rewrite Hl2 by (intros []). rewrite (Hold1 y B). exact A.
+        - rewrite Hn2, Hn1. lia. }
+      specialize (IH s2 w (l ++ [c]) Hab2 Hsrc2).
+      assert (Hns2 : next_elem s2 = c + 1) by (rewrite Hn2; exact Hn1).
+      eapply post_weaken; [exact IH| |].
+      + intros u' s3 (G1 & G2 & G3).
+        rewrite <- app_assoc in G1. rewrite Hns2 in G1. split; [exact G1|].
+        split; [cbn [List.length]; lia|].
+        intros y Hy. rewrite G3 by lia. rewrite Hl2 by (intros []). apply Hold1. exact Hy.
+      + intros s3 (k & Hk & G1 & G2). exists (S k). split; [cbn [List.length]; lia|].
+        rewrite <- app_assoc in G1. rewrite Hns2 in G1. split; [exact G1|].
+        intros y Hy. rewrite G2 by lia. rewrite Hl2 by (intros []). apply (Hold1 y Hy).
+  Qed.
+
+  Theorem extend_from_slice_any s w l src :
+    vabs s w l -> sources s src ->
+    post (extend_from_slice cfg ncap w src s)
+      (fun _ s' =>
+         vabs s' w (l ++ zseq (next_elem s) (List.length src)) /\
+         next_elem s' = next_elem s + Z.of_nat (List.length src) /\
+         (forall e, e < next_elem s -> ledger s' e = ledger s e))
+      (fun s' => exists k, (k <= List.length src)%nat /\ vabs s' w (l ++ zseq (next_elem s) k) /\
+                           (forall e, e < next_elem s -> ledger s' e = ledger s e)).
+  Proof.
+    intros Hab Hsrc. unfold extend_from_slice.
+    eapply post_bind.
+    { eapply post_weaken; [apply (capop_abs cfg ncap Hcfg Hpol s w l (CReserve (Z.of_nat (List.length src))) Hab); simpl; lia| |].
+      - intros u s1 H. exact H.
+      - intros s1 ->. exists O. split; [lia|]. simpl. rewrite app_nil_r. split; [exact Hab|auto]. }
+    intros u s1 (Hab1 & [Hn1 Hl1] & _).
+    assert (Hsrc1 : sources s1 src).
+    { intros e He. destruct (Hsrc e He) as (A & B). split; [rewrite Hl1 by (intros []); exact A|lia]. }
+    eapply post_weaken; [apply (push_clones_any src s1 w l Hab1 Hsrc1)| |].
+    - intros u' s2 (G1 & G2 & G3). rewrite Hn1 in *. split; [exact G1|]. split; [exact G2|].
+      intros e He. rewrite G3 by exact He. apply Hl1. intros [].
+    - intros s2 (k & Hk & G1 & G2). rewrite Hn1 in *. exists k. split; [exact Hk|]. split; [exact G1|].
+      intros e He. rewrite G2 by exact He. apply Hl1. intros [].
+  Qed.
 End CloneSlice.
